@@ -5,8 +5,16 @@ MODULE = "EngineCore"
 
 
 def check(ctx):
+    # the real composition: a killed execution link must yield exactly one disconnect notice naming
+    # that exchange, and the engine must show its account link (and global health) as reconnecting
+    from props import composition
+    composition.run(ctx, composition.C14_TAGS, runs=4 if ctx.quick else 30)
     return enginecore.check(ctx)
 
 
 def replay(ctx, rp):
+    if rp.get("kind") == "system":
+        from props import composition
+        composition.run(ctx, composition.C14_TAGS, runs=4)
+        return ctx.finish(write_evidence=False)
     return enginecore.replay(ctx, rp)
